@@ -16,6 +16,7 @@ import (
 	"github.com/form3tech-oss/f1/v2/internal/verifharness/hlib"
 	"github.com/form3tech-oss/f1/v2/internal/verifshim/vrt"
 	"github.com/form3tech-oss/f1/v2/internal/verifshim/vtime"
+	"github.com/form3tech-oss/f1/v2/pkg/f1"
 	f1testing "github.com/form3tech-oss/f1/v2/pkg/f1/testing"
 )
 
@@ -79,8 +80,12 @@ func suite() hlib.Suite {
 				concs = append(concs, 300) // a large pool with every worker in flight: 304 invocations, each with its own id throughout
 			}
 			for _, conc := range concs {
-				for _, limit := range []uint64{1, 2, 3, 7} {
-					for bi, body := range []time.Duration{time.Millisecond, 150 * time.Millisecond, time.Millisecond, time.Millisecond} {
+				for _, limit := range []uint64{1, 2, 3, 7, 1100} {
+					for bi, body := range []time.Duration{time.Millisecond, 150 * time.Millisecond, time.Millisecond, time.Millisecond, time.Millisecond} {
+						// limit 1100 (C03, three workers, instant bodies only): ids well beyond a thousand are still their own decimal spelling
+						if limit == 1100 && (*prop != "C03" || conc != 3 || bi != 0 || mc.mode == "file") {
+							continue
+						}
 						if !r.Mine() || r.Expired() {
 							continue
 						}
@@ -88,6 +93,11 @@ func suite() hlib.Suite {
 						// the run still makes exactly the allowed iterations
 						// fourth variant (C03 only): every second iteration fails; failed iterations count like any other
 						if *prop == "C03" && conc > 3 && (bi != 1 || limit != 7) {
+							continue
+						}
+						// fifth variant (C03 only): the scenario is a combination (f1.CombineScenarios) of the id-observing function and a passing one
+						combined := bi == 4
+						if combined && (*prop != "C03" || conc > 3) {
 							continue
 						}
 						someFail := bi == 3
@@ -117,6 +127,9 @@ func suite() hlib.Suite {
 						}
 						if someFail {
 							input += " every-second-iteration-fails"
+						}
+						if combined {
+							input += " combined-scenario"
 						}
 						r.SampleCase(input)
 						var ids []int
@@ -157,7 +170,14 @@ func suite() hlib.Suite {
 								inflight--
 							}
 						}
-						res := hlib.RunOnce(rs, -1, 0, 60*time.Second)
+						if combined {
+							rs.ScenarioFn = f1.CombineScenarios(rs.ScenarioFn, func(*f1testing.T) f1testing.RunFn { return func(*f1testing.T) {} })
+						}
+						if limit == 1100 {
+							rs.Flags = mc.flags(40) // 40 per 100 ms tick
+							rs.Opts.MaxDuration = 30 * time.Second
+						}
+						res := hlib.RunOnce(rs, -1, 0, 120*time.Second)
 						if res.BuildErr != nil {
 							panic(res.BuildErr)
 						}
